@@ -20,7 +20,7 @@ TECHNIQUE = 'explicit-state search over chains of sub_context() on real ParsingS
 
 BOUNDS = {'quick': dict(chain=3, W=2, Wnew=2), 'thorough': dict(chain=4, W=2, Wnew=3)}
 
-ALPHA = ['a', ' ', '{', '}', '[', ']', '<', '>', '$', '!', '\\', '@', '%', '#', '(', ')']
+ALPHA = ['a', ' ', '{', '}', '[', ']', '<', '>', '$', '!', '\\', '@', '%', '#', '(', ')', '~']
 
 G2 = [('{', '}'), ('[', ']')]
 G3 = [('{', '}'), ('<', '>')]
@@ -49,6 +49,9 @@ DELTAS = [
     dict(in_math_mode=True, math_mode_delimiter='$', latex_inline_math_delimiters=[('$', '!')]),
     dict(in_math_mode=True, math_mode_delimiter='(', latex_inline_math_delimiters=[('(', ')')]),
     dict(),
+    # everything switched off in one step, then single switches back on (a derived "nothing enabled" shortcut must be undone)
+    dict(enable_macros=False, enable_environments=False, enable_comments=False, enable_groups=False, enable_specials=False, enable_math=False),
+    dict(enable_specials=True), dict(enable_macros=True), dict(enable_groups=True),
 ]
 
 
@@ -191,7 +194,7 @@ def plan(tier):
         rule=('all chains of <= %d sub_context() calls over %d field changes from 3 root states; states merged on '
               '(public fields, cached tables); in every state the derived object is compared with ParsingState(**get_fields()) on '
               'its cached tables and on the token sequences of all words of length <= %d (<= %d when the tables are new) over a '
-              '16-symbol alphabet containing every configured delimiter; the parent is compared with an independently rebuilt parent. '
+              '17-symbol alphabet containing every configured delimiter; the parent is compared with an independently rebuilt parent. '
               'states = distinct canonical states per shard; non-trivial = chains of length >= 2.' % (b['chain'], len(DELTAS), b['W'], b['Wnew'])),
         assumptions=['a child inherits only fields and the cached tables from its parent (key completeness)'],
     )
